@@ -44,7 +44,7 @@ TECHNIQUE = "model-free stateful PBT: op-list histories (exhaustive small scope 
 
 OPS_W = (
     ["edge"] * 5 + ["v1"] * 3 + ["v2"] * 3 + ["link"] * 2 + ["unlink"] * 2
-    + ["al", "rl", "av", "uf"] * 2 + ["newv", "adj", "flag", "bulk"] + ["edge_attr", "newv_attr"]
+    + ["al", "rl", "av", "uf"] * 2 + ["newv", "adj", "flag", "bulk"] + ["edge_attr", "newv_attr"] + ["bulk_big", "bulk_av"]
 )
 
 # coverage-guided extra engine (atheris): executions per fuzzer process, 16 processes
@@ -113,12 +113,38 @@ def enumerate_cases(tier, shard=0, nshards=1):
                     # same history over vertices whose truth value is False (__len__ == 0 / __bool__ False)
                     yield {"nv": 2, "nuni": 0, "vcls": [3, 2], "ops": [list(o) for o in seq]}
 
+    walks = list(_threshold_walks())
+
+    def gen_all():
+        yield from sharded(iter(walks), shard, nshards)
+        yield from gen()
+
     n = sum(len(alpha) ** k for k in range(1, depth + 1)) + sum(len(alpha) ** k for k in range(1, depth))
-    return gen(), (
+    return gen_all(), (
+        f"{len(walks)} threshold walks (a vertex is grown to 63/64/65/70/128/130 links at once, one of its links - the first, second, "
+        f"last-but-63 or last - is moved away or detached, the vertex is grown again by 7..33 links and the same link is brought back, by end assignment or add_to_link) and "
         f"all {n} histories (those of < {depth} calls are run a second time over falsy Vertex subclasses) of 1..{depth} calls from a {len(alpha)}-op alphabet (edge constructors of "
         f"DirectedEdge/UnDirectedEdge with ends in {{a,b,None}}^2, v1=/v2=, link_directed(dontdup), unlink, "
         f"add_to_link, remove_from_link, add_vertex, unlink_from, Vertex(links=)) over 2 vertices"
     )
+
+
+def _threshold_walks():
+    """Deterministic histories that walk a vertex's link count across the sizes where fast paths are usually placed."""
+    for kK, K in enumerate([63, 64, 65, 70, 128, 130]):
+        for X in (0, 1, K - 64, K - 1):
+            if X < 0:
+                continue
+            for regrow in (0, 4):
+                for how in (0, 1, 2):
+                    away, back = [
+                        (["v1", X, 2, 0], ["v1", X, 0, 0]),          # end assignment away and back
+                        (["uf", X, 0, 0], ["al", X, 0, 0]),          # Link.unlink_from / Vertex.add_to_link
+                        (["rl", X, 0, 0], ["av", X, 0, 0]),          # Vertex.remove_from_link / Link.add_vertex
+                    ][how]
+                    for extra_drop in (0, 2):
+                        drops = [["v1", (X + 1 + d) % K, 2, 0] for d in range(extra_drop)]    # fall clearly below the size
+                        yield {"nv": 3, "nuni": 0, "ops": [["bulk_big", 0, 1, kK], away] + drops + [["bulk", 0, 1, regrow], back, ["unlink", 0, 1, 1]]}
 
 
 def _invariant(w, where):
